@@ -12,8 +12,7 @@ TRUSTED_BASE = [
     "hand-written Gallina model coq/model/*.v, tied to /repo by the correspondence check of this run",
     "correspondence harness (harness/*.py): generators, float<->rational conversion, tolerance 1e-8, "
     "Python interpretation of log-domain triples q + c*(1/2)ln(2pi) + (1/2)ln r",
-    "Gaussian-integral specification GI and the Isserlis-Wick moments (proofs/Spec.v, proofs/Wick.v) are definitions over an abstract real field; at Coq's real numbers they are theorems about the integral over R^D taken as an iterated improper Riemann integral (`is_gint`, trunc/GaussND.v; props/GI*.v) -- that definition is what 'integral' means there"
-    "integration library is installed",
+    "Gaussian-integral specification GI and the Isserlis-Wick moments (proofs/Spec.v, proofs/Wick.v) are definitions over an abstract real field; at Coq's real numbers they are theorems about the integral over R^D taken as an iterated improper Riemann integral (`is_gint`, trunc/GaussND.v; props/GI*.v) -- that definition is what 'integral' means there",
     "floating point, Cholesky, XLA are not modelled: the model is exact, equality is 1e-8 agreement",
 ]
 
